@@ -602,6 +602,12 @@ func Render(w *Work) string {
 		fmt.Fprintf(&b, "pf = make(chan int64, %s)\npf <- 1\npf <- 2\npf <- 3\nprobe(\"prefill\", len(pf))\n", capExpr(3, w.CapExpr))
 		b.WriteString("try {\n" + last + " <- 1\nprobe(\"send-closed\", \"no error\")\n} catch e {\nprobe(\"send-closed\", \"error\")\n}\n")
 		b.WriteString("try {\nclose(" + last + ")\nprobe(\"double-close\", \"no error\")\n} catch e {\nprobe(\"double-close\", \"error\")\n}\n")
+		// what a typed channel accepts is what a typed slice of the same element type accepts (whatever that is):
+		// a value the one refuses is not silently converted by the other
+		b.WriteString("cq = []\nfor cvv in [\"12\", true, \"1e3\", 2.5, 7, nil, \"x\"] {\nfor cty in [0, 1, 2] {\nca = \"ok\"\ncb = \"ok\"\n" +
+			"try {\nif cty == 0 { cs = make([]int64, 1); cs[0] = cvv } else if cty == 1 { cs = make([]float64, 1); cs[0] = cvv } else { cs = make([]string, 1); cs[0] = cvv }\n} catch { ca = \"err\" }\n" +
+			"try {\nif cty == 0 { cc = make(chan int64, 1); cc <- cvv } else if cty == 1 { cc = make(chan float64, 1); cc <- cvv } else { cc = make(chan string, 1); cc <- cvv }\n} catch { cb = \"err\" }\n" +
+			"cq += ca == cb\n}\n}\nprobe(\"conv-consistent\", cq)\n")
 	}
 	b.WriteString("out\n")
 	return b.String()
@@ -996,6 +1002,9 @@ func judge(wp *Work, got []interface{}, probes map[string]interface{}, mainVal i
 			}
 			if probes["send-closed"] != "error" {
 				return fail("send-closed", fmt.Sprintf("send on a closed channel: %v (expected an error caught by try)", probes["send-closed"]))
+			}
+			if got := fmt.Sprint(probes["conv-consistent"]); strings.Contains(got, "false") || !strings.Contains(got, "true") {
+				return fail("order-or-conversion", fmt.Sprintf("typed channels and typed slices of the same element type disagree on which values they accept (one refuses what the other converts): per (value, type) agreement = %s for values [\"12\", true, \"1e3\", 2.5, 7, nil, \"x\"] x [int64, float64, string]", got))
 			}
 			if probes["double-close"] != "error" {
 				return fail("double-close", fmt.Sprintf("closing a closed channel: %v (expected an error caught by try)", probes["double-close"]))
